@@ -366,6 +366,7 @@ for a in range(4):
 add('t_sendsync', 't_vectors', 't_vectors_h()', props=['C15'], tier='q', cost=3, macro='p')
 add('t_sendsync', 't_elements', 't_elements_h()', props=['C15'], tier='q', cost=3, macro='p')
 add('t_sendsync', 't_handles', 't_handles_h()', props=['C15'], tier='q', cost=5, macro='p')
+add('t_sendsync', 't_handles2', 't_handles2_h()', props=['C15'], tier='q', cost=5, macro='p')
 add('t_sendsync', 't_vectors_noalloc', 't_vectors_h()', props=['C15'], tier='t', cost=3, macro='p', flags=['nodefault'])
 
 
@@ -381,7 +382,8 @@ for n in (1, 3, 8, 24):
         attrs=['#[kani::unwind(10)]'], flags=['nolc'], cost=30, macro='p')
 add('k1_loops', 'drop_closure_unbounded', 'drop_closure_unbounded_h()', props=['C03', 'C05'], tier='q', cost=5, macro='p', attrs=['#[kani::unwind(4)]'])
 add('k1_loops', 'clone_fn_unbounded', 'clone_fn_unbounded_h()', props=['C08', 'C03', 'C05'], tier='q', cost=5, macro='p', attrs=['#[kani::unwind(4)]'])
-add('k1_loops', 'clone_from_stack', 'clone_from_h()', props=['C08', 'C04', 'C09', 'C11', 'C12'], tier='q', kind='bounded', bound='real Stack<16> vectors (capacity 2) of two 8-byte element types, lengths 0..=2', attrs=['#[kani::unwind(6)]'], flags=['nolc'], cost=30, macro='p')
+add('k1_loops', 'clone_from_same_stack', 'clone_from_h::<TB>(mk_tb)', props=['C08', 'C11', 'C12'], tier='q', kind='bounded', bound='real Stack<16> vectors (capacity 2) of one 8-byte element type, lengths 0..=2', attrs=['#[kani::unwind(6)]'], flags=['nolc'], cost=30, macro='p')
+add('k1_loops', 'clone_from_stack', 'clone_from_h::<TA>(mk_ta)', props=['C08', 'C04', 'C09', 'C11', 'C12'], tier='q', kind='bounded', bound='real Stack<16> vectors (capacity 2) of two 8-byte element types, lengths 0..=2', attrs=['#[kani::unwind(6)]'], flags=['nolc'], cost=30, macro='p')
 add('k1_loops', 'nop_clone', 'nop_clone_h()', props=['C08'], tier='q', cost=2, macro='p')
 B3 = 'real Stack<16> vector of u32 (capacity 4), every state and index in that bound, real copy_bytes unwound'
 add('k1_loops', 'k3_insert_u8', 'k3_insert_h::<u8, 6, 6>()', props=['C01', 'C05'], tier='t', kind='bounded', bound='real Stack<6> vector of u8 (capacity 6), every state and index in that bound, real copy_bytes unwound', attrs=['#[kani::unwind(20)]'], flags=['nolc'], cost=40, macro='p')
